@@ -38,6 +38,7 @@ structure St where
   opn : Bool := false                  -- the domain stores open bounds
   slots : Array (Option RefPoly) := Array.replicate 8 none
   pending : Option Pending := none
+  lastOp : String := "?"
   nOk : Nat := 0
   nBad : Nat := 0
   nSkip : Nat := 0
@@ -272,7 +273,7 @@ def processLine (ln : Nat) (line : String) : M Unit := do
     let nm : String := "new:" ++ how
     let pd : Pending := { ln := ln, slot := tokNat s, name := nm, nOut := e.nOut,
                           pieces := e.pieces, cls := e.cls, before := none, modelled := e.modelled }
-    modify fun st => { st with pending := some pd }
+    modify fun st => { st with pending := some pd, lastOp := nm }
   | ["copy", d, s] =>
     setSlot (tokNat d) (← getSlot (tokNat s))
   | ["swap", a, b] =>
@@ -300,8 +301,8 @@ def processLine (ln : Nat) (line : String) : M Unit := do
         | _ => none
       let pd : Pending := { ln := ln, slot := si, name := name, nOut := e.nOut, pieces := e.pieces,
                             cls := e.cls, before := some p, other := oth, modelled := e.modelled }
-      modify fun st => { st with pending := some pd }
-    | none => modify fun st => { st with pending := none }
+      modify fun st => { st with pending := some pd, lastOp := name }
+    | none => modify fun st => { st with pending := none, lastOp := name }
   | ["ret", b] =>
     modify fun st => { st with pending := st.pending.map fun p => { p with ret := some (b == "1") } }
   | "exc" :: cls :: _ =>
@@ -373,6 +374,7 @@ def processLine (ln : Nat) (line : String) : M Unit := do
       else if equivB nn p.cs cs then ok ln
       else bad ln s!"history obs {kind}: the reported set changed without a mutator"
   | "q" :: s :: qn :: rest =>
+    modify fun st => { st with lastOp := "query:" ++ qn }
     match ← getSlot (tokNat s) with
     | none => skip ln "unknown-slot"
     | some p =>
@@ -530,6 +532,10 @@ def processLine (ln : Nat) (line : String) : M Unit := do
             | _ => ok ln
         | _ => skip ln "parse"
       else skip ln s!"unknown-query {qn}"
+  | "note" :: "okfalse" :: _ =>
+    bad ln s!"invalid {st.lastOp}: OK() is false, the object violates its class invariant"
+  | ["reset", s, n] =>
+    setSlot (tokNat s) (some (mk (tokNat n) []))
   | "crash" :: sig =>
     bad ln s!"crash {" ".intercalate sig}"
   | _ => pure ()
